@@ -6,6 +6,7 @@ code reads exactly from `crypto/rand.Reader` and nothing else is what the `rnd` 
 -/
 import OtpVerif.Props.C07
 import OtpVerif.Model.Utils
+import OtpVerif.Lemmas.Base32Spec
 
 namespace OtpVerif.Props.C08
 open OtpVerif OtpVerif.Std OtpVerif.Model OtpVerif.Lemmas OtpVerif.Props.C07
@@ -48,6 +49,34 @@ theorem caseVariant_refl : ∀ s : Bytes, CaseVariant s s
 theorem noPad_spelling (b : Bytes) : Spelling b (encNoPadB b) :=
   ⟨⟨encNoPadB b, padCount b.length, 0, encNoPadB b, [], [], encB_eq_noPad b, padCount_lt _, Nat.zero_le _,
     by simpa using caseVariant_refl (encNoPadB b), by simp, by simp, by simp⟩⟩
+
+/-- the text `RandomSecret` returns is the RFC 4648 base32 encoding in the bit-wise sense of the Spec layer -/
+theorem C08_enc_spec (b : Bytes) : encNoPadB b = Spec.b32NoPad b := (Lemmas.B32Spec.b32NoPad_eq b).symm
+
+theorem encNoPad_length : ∀ (l : List Nat), (B32.encNoPad l).length = (8 * l.length + 4) / 5
+  | [] => by simp [B32.encNoPad]
+  | [_] => by simp [B32.encNoPad]
+  | [_, _] => by simp [B32.encNoPad]
+  | [_, _, _] => by simp [B32.encNoPad]
+  | [_, _, _, _] => by simp [B32.encNoPad]
+  | _ :: _ :: _ :: _ :: _ :: rest => by
+    unfold B32.encNoPad
+    simp only [List.length_cons, encNoPad_length rest]
+    omega
+
+/-- C07 / C08: the padded encoding used in `C07_spellings` is the Spec layer's RFC 4648 encoding -/
+theorem C07_enc_rfc4648 (b : Bytes) : encB b = Spec.b32 b := by
+  rw [encB_eq_noPad]
+  unfold Spec.b32
+  simp only
+  rw [← C08_enc_spec]
+  congr 1
+  unfold encNoPadB
+  rw [List.length_map, encNoPad_length, List.length_map]
+  congr 1
+  have h5 : b.length % 5 = 0 ∨ b.length % 5 = 1 ∨ b.length % 5 = 2 ∨ b.length % 5 = 3 ∨ b.length % 5 = 4 := by omega
+  unfold padCount
+  rcases h5 with h | h | h | h | h <;> rw [h] <;> simp only <;> omega
 
 /-- C08: for a supported hash the secret is exactly the next 20/32/64 bytes of the random stream, unmodified,
 each used once (the rest of the stream is untouched), returned as unpadded base32 -/
@@ -199,3 +228,5 @@ end OtpVerif.Props.C08
 #print axioms OtpVerif.Props.C08.C08_text
 #print axioms OtpVerif.Props.C08.C08_unsupported
 #print axioms OtpVerif.Props.C08.C08_history
+#print axioms OtpVerif.Props.C08.C08_enc_spec
+#print axioms OtpVerif.Props.C08.C07_enc_rfc4648
